@@ -103,14 +103,21 @@ static void equivcache(const J &sc, Emitter &out)
     ev.set("e", "queries").set("kind", kind);
     bool placed = true;
     size_t n = static_cast<size_t>(sc["n"].num(4));
+    std::vector<ComponentPtr> comps;
     for (size_t i = 0; i < n; ++i) {
-        auto c = Component::create("c" + std::to_string(i));
-        model->addComponent(c);
+        // homes (optional): the component each variable lives in; by default every variable has a component of its own
+        size_t home = sc["homes"].k == J::ARR ? static_cast<size_t>(sc["homes"][i].num()) : i;
+        while (comps.size() <= std::max(home, i)) {
+            auto nc = Component::create("c" + std::to_string(comps.size()));
+            model->addComponent(nc);
+            comps.push_back(nc);
+        }
+        auto c = comps[home];
         VariablePtr v;
         if (kind == "collision") {
             v = variableAt(static_cast<uintptr_t>(strtoull(sc["addr"][i].str().c_str(), nullptr, 10)), "x", placed);
         } else {
-            v = Variable::create("x");
+            v = Variable::create("x" + std::to_string(i));
         }
         v->setUnits("dimensionless");
         c->addVariable(v);
